@@ -305,7 +305,11 @@ def check_plan_sizes(chk, F, rid):
         hooks = {
             desc_type: lambda m, a, c, dt=dt: Adt(DT, dt),
             "util::witness_size": lambda m, a, c: Term("size_of_template"),
+            "util::ItemSize::size": lambda m, a, c: Term("size_of_template"),
         }
+        for q in F.fns:
+            if q.endswith("ItemSize>::size"):
+                hooks[q] = lambda m, a, c: Term("size_of_template")
         try:
             sv = F.fn("segwit_version", file="descriptor/mod.rs")
         except KeyError:
@@ -338,9 +342,12 @@ def check_plan_sizes(chk, F, rid):
             chk.obligation(rid, "size_of_template" in sn, "scriptsig_size|" + dt,
                            "Plan::scriptsig_size for %s is %s (the template goes into the scriptSig)" % (dt, sn), F.fns[ss]["span"])
         elif dt == "ShWsh":
-            chk.obligation(rid, s_ == 35, "scriptsig_size|" + dt, "Plan::scriptsig_size for sh(wsh) is %s, expected 35" % sn, F.fns[ss]["span"])
+            # length prefix (1) + push opcode (1) + the 34-byte redeem script 0020<32>
+            chk.obligation(rid, s_ == 36, "scriptsig_size|" + dt, "Plan::scriptsig_size for sh(wsh) is %s; the scriptSig is the "
+                           "push of the 34-byte redeem script: 35 bytes + its length prefix = 36" % sn, F.fns[ss]["span"])
         elif dt == "ShWpkh":
-            chk.obligation(rid, s_ == 23, "scriptsig_size|" + dt, "Plan::scriptsig_size for sh(wpkh) is %s, expected 23" % sn, F.fns[ss]["span"])
+            chk.obligation(rid, s_ == 24, "scriptsig_size|" + dt, "Plan::scriptsig_size for sh(wpkh) is %s; the scriptSig is the "
+                           "push of the 22-byte redeem script: 23 bytes + its length prefix = 24" % sn, F.fns[ss]["span"])
         else:
             chk.obligation(rid, s_ == 1, "scriptsig_size|" + dt, "Plan::scriptsig_size for %s is %s, expected 1 (empty script)" % (dt, sn), F.fns[ss]["span"])
 
